@@ -96,6 +96,10 @@ func NewCompiler(
 		modules = NewModuleMap()
 	}
 
+	// never append into the caller's backing array: another compiler may have
+	// been started from the same constants
+	constants = constants[:len(constants):len(constants)]
+
 	return &Compiler{
 		file:            file,
 		symbolTable:     symbolTable,
